@@ -136,7 +136,13 @@ impl Gen {
             0..=13 => engine_gen::ev("Market", ex, inst, "", "", "-", 0, false, "-", vec![], nf()),
             14..=17 => engine_gen::ev("MarketReconnecting", rng.random_range(0..2), 0, "", "", "-", 0, false, "-", vec![], nf()),
             18..=21 => engine_gen::ev("AccountReconnecting", rng.random_range(0..2), 0, "", "", "-", 0, false, "-", vec![], nf()),
-            22..=35 => { let c = live(self, rng); engine_gen::ev("OrderSnap", ex, inst, &c.1, if rng.random_bool(0.7) { "Open" } else { "Inactive" }, &c.2, c.3, false, "-", vec![], nf()) }
+            22..=35 => {
+                let c = live(self, rng);
+                let mut e = engine_gen::ev("OrderSnap", ex, inst, &c.1, if rng.random_bool(0.7) { "Open" } else { "Inactive" }, &c.2, c.3, false, "-", vec![], nf());
+                // a third of the open reports repeat the previous report's exchange timestamp with other content
+                e["tie"] = json!(rng.random_range(0..3) == 0);
+                e
+            }
             36..=41 => { let c = live(self, rng); engine_gen::ev("CancelResp", ex, inst, &c.1, "", "-", 0, rng.random_bool(0.5), "-", vec![], nf()) }
             42..=55 => engine_gen::ev("Trade", ex, inst, "", "", if rng.random_bool(0.5) { "buy" } else { "sell" }, rng.random_range(1..=2), false, "-", vec![], nf()),
             56..=60 => engine_gen::ev("Balance", rng.random_range(0..2), 0, "", "", "-", rng.random_range(0..9), false, "-", vec![], nf()),
